@@ -595,6 +595,9 @@ def check_trace_property(prop, tier, seed, work, replay=None, scale=1.0):
                 known.append((kf[0], rec))
             elif reasons is not None:
                 (violations if rec["reason"] in reasons else inconclusive).append(rec)
+            elif rec["reason"] == "isidentity-observer":
+                # IsIdentity() (part of every observation) disagrees with the representation that was put in: C05's observer
+                (violations if prop in ("C05", "C10") else inconclusive).append(rec)
             elif prop in OWNERS.get(rec["op"], set()) or prop in CONCURRENT_PROPS:
                 violations.append(rec)
             else:
